@@ -11,23 +11,29 @@ def orderOf : Op → List Nat
   | .sweep o => o
   | _ => []
 
-/-- the flood bits are right for every tree switch: the post-condition of `_update_tree` w.r.t. `adj` -/
-def FloodOK (adj : List Link) (order : List Nat) (conns : Conns) (pv : Prev) : Prop :=
-  ∃ t, calcTreeL adj order = .ok t ∧ ∀ sw ∈ treeKeys t, Good adj t conns pv sw
+/-- the flood bits are right for every switch `_update_tree` goes through (`va = false`: the switches of the tree, `va = true`: every
+    connected switch): the post-condition of `_update_tree` w.r.t. `adj` -/
+def FloodOKv (va : Bool) (adj : List Link) (order : List Nat) (conns : Conns) (pv : Prev) : Prop :=
+  ∃ t, calcTreeL adj order = .ok t ∧ ∀ sw ∈ visited va t conns, Good adj t conns pv sw
 
-/-- executable form of `FloodOK` (used for the `decide`d defect witnesses) -/
-def floodOkB (adj : List Link) (order : List Nat) (conns : Conns) (pv : Prev) : Bool :=
+/-- the flood bits are right for every tree switch -/
+def FloodOK (adj : List Link) (order : List Nat) (conns : Conns) (pv : Prev) : Prop := FloodOKv false adj order conns pv
+
+/-- executable form of `FloodOKv` (used for the `decide`d defect witnesses) -/
+def floodOkBv (va : Bool) (adj : List Link) (order : List Nat) (conns : Conns) (pv : Prev) : Bool :=
   match calcTreeL adj order with
   | .error _ => false
-  | .ok t => (treeKeys t).all fun sw =>
+  | .ok t => (visited va t conns).all fun sw =>
       match conns.get sw with
       | none => true
       | some ports => ports.all fun p => !(decide (p < OFPP_MAX)) || (pv.get (sw, p) == some (floodOf adj (treePorts t sw) sw p))
 
-theorem floodOkB_of_FloodOK (adj : List Link) (order : List Nat) (conns : Conns) (pv : Prev)
-    (h : FloodOK adj order conns pv) : floodOkB adj order conns pv = true := by
+def floodOkB (adj : List Link) (order : List Nat) (conns : Conns) (pv : Prev) : Bool := floodOkBv false adj order conns pv
+
+theorem floodOkBv_of_FloodOKv (va : Bool) (adj : List Link) (order : List Nat) (conns : Conns) (pv : Prev)
+    (h : FloodOKv va adj order conns pv) : floodOkBv va adj order conns pv = true := by
   obtain ⟨t, ht, hg⟩ := h
-  unfold floodOkB
+  unfold floodOkBv
   rw [ht]
   simp only [List.all_eq_true]
   intro sw hsw
@@ -41,52 +47,61 @@ theorem floodOkB_of_FloodOK (adj : List Link) (order : List Nat) (conns : Conns)
       simp [hlt, this]
     · simp [hlt]
 
-theorem handle_fixed_post (adjNow : List Link) (order : List Nat) (conns : Conns) (link : Link)
-    (acc : Prev × List PortMod × Nat) (t : List TEdge) (ht : calcTreeL adjNow order = .ok t) :
-    ∀ sw ∈ treeKeys t, Good adjNow t conns (handleLinkEvent fixed adjNow order conns link acc).1 sw := by
-  obtain ⟨pv', mods, hu⟩ := updateTree_ok adjNow order conns acc.1 t ht
-  have : (handleLinkEvent fixed adjNow order conns link acc).1 = pv' := by
-    unfold handleLinkEvent
-    simp [fixed, hu]
-  rw [this]
-  exact updateTree_post adjNow order conns acc.1 pv' mods t ht hu
+theorem floodOkB_of_FloodOK (adj : List Link) (order : List Nat) (conns : Conns) (pv : Prev)
+    (h : FloodOK adj order conns pv) : floodOkB adj order conns pv = true :=
+  floodOkBv_of_FloodOKv false adj order conns pv h
 
-theorem handleAll_fixed_post (adjNow : List Link) (order : List Nat) (conns : Conns) (t : List TEdge)
-    (ht : calcTreeL adjNow order = .ok t) :
+theorem handle_rep_post (v : Variant) (hs : v.skip = false) (adjNow : List Link) (order : List Nat) (conns : Conns) (link : Link)
+    (acc : Prev × List PortMod × Nat) (t : List TEdge) (ht : calcTreeL adjNow order = .ok t) :
+    ∀ sw ∈ visited v.visitAll t conns, Good adjNow t conns (handleLinkEvent v adjNow order conns link acc).1 sw := by
+  obtain ⟨pv', mods, hu⟩ := updateTree_ok v.visitAll adjNow order conns acc.1 t ht
+  have : (handleLinkEvent v adjNow order conns link acc).1 = pv' := by
+    unfold handleLinkEvent
+    simp [hs, hu]
+  rw [this]
+  exact updateTree_post v.visitAll adjNow order conns acc.1 pv' mods t ht hu
+
+theorem handleAll_rep_post (v : Variant) (hs : v.skip = false) (adjNow : List Link) (order : List Nat) (conns : Conns)
+    (t : List TEdge) (ht : calcTreeL adjNow order = .ok t) :
     ∀ (links : List Link) (acc : Prev × List PortMod × Nat), links ≠ [] →
-      ∀ sw ∈ treeKeys t, Good adjNow t conns (handleAll fixed adjNow order conns links acc).1 sw
+      ∀ sw ∈ visited v.visitAll t conns, Good adjNow t conns (handleAll v adjNow order conns links acc).1 sw
   | [], _, h => absurd rfl h
   | [l], acc, _ => by
     simp only [handleAll]
-    exact handle_fixed_post adjNow order conns l acc t ht
+    exact handle_rep_post v hs adjNow order conns l acc t ht
   | l :: l2 :: ls, acc, _ => by
     rw [handleAll]
-    exact handleAll_fixed_post adjNow order conns t ht (l2 :: ls) _ (by simp)
+    exact handleAll_rep_post v hs adjNow order conns t ht (l2 :: ls) _ (by simp)
 
-theorem deleteLinks_fixed_prev (s : DState) (links : List Link) (order : List Nat) :
-    (deleteLinks fixed s links order).1.prev =
-      (handleAll fixed (keys (without s.adj links)) order s.conns links (s.prev, [], 0)).1 := rfl
+theorem deleteLinks_rep_prev (v : Variant) (hp : v.popFirst = true) (s : DState) (links : List Link) (order : List Nat) :
+    (deleteLinks v s links order).1.prev =
+      (handleAll v (keys (without s.adj links)) order s.conns links (s.prev, [], 0)).1 := by
+  unfold deleteLinks; simp [hp]
 
-theorem deleteLinks_fixed_flood (s : DState) (links : List Link) (order : List Nat) (hne : links ≠ []) (t : List TEdge)
-    (ht : calcTreeL (keys (deleteLinks fixed s links order).1.adj) order = .ok t) :
-    ∀ sw ∈ treeKeys t, Good (keys (deleteLinks fixed s links order).1.adj) t (deleteLinks fixed s links order).1.conns
-      (deleteLinks fixed s links order).1.prev sw := by
-  rw [deleteLinks_fixed_prev, deleteLinks_conns]
+theorem deleteLinks_rep_flood (v : Variant) (hp : v.popFirst = true) (hs : v.skip = false) (s : DState) (links : List Link)
+    (order : List Nat) (hne : links ≠ []) (t : List TEdge)
+    (ht : calcTreeL (keys (deleteLinks v s links order).1.adj) order = .ok t) :
+    ∀ sw ∈ visited v.visitAll t (deleteLinks v s links order).1.conns,
+      Good (keys (deleteLinks v s links order).1.adj) t (deleteLinks v s links order).1.conns
+        (deleteLinks v s links order).1.prev sw := by
+  rw [deleteLinks_rep_prev v hp, deleteLinks_conns]
   rw [deleteLinks_adj] at ht ⊢
-  exact handleAll_fixed_post _ order s.conns t ht links _ hne
+  exact handleAll_rep_post v hs _ order s.conns t ht links _ hne
 
-/-- FLOOD_PORTS, one op from ANY state of the repaired components: if the op raised a LinkEvent (the adjacency changed) and
-    `_calc_spanning_tree` returns `t` on the new adjacency, then in the new state every port below `OFPP_MAX` of every connected
-    switch of the tree has flooding on iff it is a tree port or an edge port. -/
-theorem step_fixed_flood (s : DState) (op : Op) (hev : (step fixed s op).2.events ≠ []) (t : List TEdge)
-    (ht : calcTreeL (keys (step fixed s op).1.adj) (orderOf op) = .ok t) :
-    ∀ sw ∈ treeKeys t, Good (keys (step fixed s op).1.adj) t (step fixed s op).1.conns (step fixed s op).1.prev sw := by
+/-- FLOOD_PORTS, one op from ANY state of the repaired components (`popFirst`, no `skip`): if the op raised a LinkEvent (the adjacency
+    changed) and `_calc_spanning_tree` returns `t` on the new adjacency, then in the new state every port below `OFPP_MAX` of every
+    switch `_update_tree` goes through has flooding on iff it is a tree port or an edge port. -/
+theorem step_rep_flood (v : Variant) (hp : v.popFirst = true) (hs : v.skip = false) (s : DState) (op : Op)
+    (hev : (step v s op).2.events ≠ []) (t : List TEdge)
+    (ht : calcTreeL (keys (step v s op).1.adj) (orderOf op) = .ok t) :
+    ∀ sw ∈ visited v.visitAll t (step v s op).1.conns,
+      Good (keys (step v s op).1.adj) t (step v s op).1.conns (step v s op).1.prev sw := by
   cases op with
   | tick dt => simp [step] at hev
   | up d ps => simp [step] at hev
   | down d o =>
     simp only [step, orderOf] at hev ht ⊢
-    apply deleteLinks_fixed_flood _ _ _ _ t ht
+    apply deleteLinks_rep_flood v hp hs _ _ _ _ t ht
     intro hnil
     rw [deleteLinks_events, hnil] at hev
     exact hev rfl
@@ -96,7 +111,7 @@ theorem step_fixed_flood (s : DState) (op : Op) (hev : (step fixed s op).2.event
     · simp at hev
     · rename_i hne
       rw [if_neg hne] at ht ⊢
-      apply deleteLinks_fixed_flood _ _ _ _ t ht
+      apply deleteLinks_rep_flood v hp hs _ _ _ _ t ht
       intro hnil
       rw [deleteLinks_events, hnil] at hev
       exact hev rfl
@@ -110,6 +125,11 @@ theorem step_fixed_flood (s : DState) (op : Op) (hev : (step fixed s op).2.event
         · simp at hev
         · rename_i h1 h2 h3
           rw [if_neg h1, if_neg h2, if_neg h3] at ht ⊢
-          exact handle_fixed_post _ o s.conns l _ t ht
+          exact handle_rep_post v hs _ o s.conns l _ t ht
+
+theorem step_fixed_flood (s : DState) (op : Op) (hev : (step fixed s op).2.events ≠ []) (t : List TEdge)
+    (ht : calcTreeL (keys (step fixed s op).1.adj) (orderOf op) = .ok t) :
+    ∀ sw ∈ treeKeys t, Good (keys (step fixed s op).1.adj) t (step fixed s op).1.conns (step fixed s op).1.prev sw :=
+  step_rep_flood fixed rfl rfl s op hev t ht
 
 end Pox.Discovery
